@@ -181,6 +181,19 @@ func serverlistSuite(seed uint64, tier, outDir string) (*core.Result, error) {
 					res.Fail("a server entered the list without a valid GCA signature over exactly its fields", "entered-unsigned", replay)
 				}
 			}
+			// an accepted, GCA-signed ban is in the list afterwards -- also for a key the server had not listed yet
+			// (if it were dropped, the key's old authorization arriving later would make a banned server usable)
+			if mig == nil && accepted && validSig && as.Banned {
+				held := false
+				for _, y := range after {
+					if y.PublicKey == as.PublicKey && y.Banned {
+						held = true
+					}
+				}
+				if !held {
+					res.Fail(fmt.Sprintf("request %q: a GCA-signed ban record was answered with success but the key is not in the list as banned afterwards", kind), "ban-dropped", replay)
+				}
+			}
 			if mig != nil {
 				if accepted && mig.Equipment == dev.key.pub {
 					lastMig = mig
